@@ -329,9 +329,19 @@ def check_import(ctx, fr):
     liv = lp.target.elts[0].id
     shape.match_stmts(ctx, "R17.5", ZX + ".Diagram.from_pyzx.make_wires_adjacent:first", [s for s in mwa.body if isinstance(s, ast.Assign)], ["offset = scan.index(inputs[0])"], mod=ZX, node=mwa, sig="gather-first",
                       required="gathering starts at the position of the first (leftmost) input")
+    if ast.unparse(lp.iter) == "enumerate(inputs[1:], start=1)" and len(lp.target.elts) == 2 and isinstance(lp.target.elts[1], ast.Name):
+        # the same walk with the index starting at 1 and the element read directly: k-th input = inputs[k], placed at offset + k
+        ctx.ob("R17.5", ZX + ".Diagram.from_pyzx.make_wires_adjacent:others", True, found=ast.unparse(lp.iter), required="every other input, in order", mod=ZX, node=lp, trivial=True)
+        shape.match_stmts(ctx, "R17.5", ZX + ".Diagram.from_pyzx.make_wires_adjacent", lp.body, ["source, target = (scan.index(wire), offset + i)", "scan, swaps = move(scan, source, target)", "diagram = diagram >> swaps"],
+                          {liv: "i", lp.target.elts[1].id: "wire"}, mod=ZX, node=lp, sig="gather", required="the k-th input is moved right after the (k-1)-th; the swaps are composed onto the diagram", exact=True)
+        return _check_import_rest(ctx, fr, mwa)
     ctx.ob("R17.5", ZX + ".Diagram.from_pyzx.make_wires_adjacent:others", ast.unparse(lp.iter) == "enumerate(inputs[1:])", found=ast.unparse(lp.iter), required="every other input, in order", mod=ZX, node=lp, sig="gather-iter", trivial=True)
     shape.match_stmts(ctx, "R17.5", ZX + ".Diagram.from_pyzx.make_wires_adjacent", lp.body, ["source, target = (scan.index(inputs[i + 1]), offset + i + 1)", "scan, swaps = move(scan, source, target)", "diagram = diagram >> swaps"],
                       {liv: "i"}, mod=ZX, node=lp, sig="gather", required="the k-th input is moved right after the (k-1)-th; the swaps are composed onto the diagram", exact=True)
+    return _check_import_rest(ctx, fr, mwa)
+
+
+def _check_import_rest(ctx, fr, mwa):
     first = mwa.body[0]
     ok = isinstance(first, ast.If) and ast.unparse(first.test) == "not inputs" and ast.unparse(first.body[-1]) == "return (scan, diagram, len(scan))"
     ctx.ob("R17.5", ZX + ".Diagram.from_pyzx.make_wires_adjacent:no-inputs", ok, found=ast.unparse(first)[:80], required="a spider without inputs is placed at the right end of the row", mod=ZX, node=first, sig="gather-empty")
